@@ -33,6 +33,8 @@ func C19(r *core.Report) {
 	r.Floor("C19.R7", 1)
 	rangeSelectionInclusive(r, "C19.R8")
 	r.Floor("C19.R8", 1)
+	c19VoteProgramsComplete(r)
+	r.Floor("C19.R9", 1)
 	r.Floor("C19.R1", 6)
 	r.Floor("C19.R2", 2)
 	r.Floor("C19.R3", 6)
@@ -580,4 +582,61 @@ func keyedStoreOnly(f *core.Func, argIdx int) (int, string) {
 		return true
 	})
 	return stores, why
+}
+
+// c19VoteProgramsComplete (C19.R9): the vote classification counts the programs of a transaction
+// (is_simple_vote_transaction_impl looks at the length of the list), so getPrograms must visit every instruction: its
+// loop over the message's instructions has no early exit and no test on the size of the list being built.
+func c19VoteProgramsComplete(r *core.Report) {
+	const rule = "C19.R9"
+	f := r.Anchor(rule, "main.getPrograms")
+	if f == nil {
+		return
+	}
+	info := f.Pkg.TypesInfo
+	n := 0
+	ast.Inspect(f.Body, func(m ast.Node) bool {
+		rs, ok := m.(*ast.RangeStmt)
+		if !ok || !strings.HasSuffix(core.ExprStr(rs.X), ".Instructions") {
+			return true
+		}
+		n++
+		bad := ""
+		var result types.Object
+		ast.Inspect(rs.Body, func(x ast.Node) bool {
+			switch s := x.(type) {
+			case *ast.BranchStmt:
+				if s.Tok == token.BREAK || s.Tok == token.GOTO {
+					bad = "leaves the loop early (" + s.Tok.String() + ")"
+				}
+			case *ast.ReturnStmt:
+				bad = "returns from inside the loop"
+			case *ast.AssignStmt:
+				if len(s.Rhs) == 1 {
+					if c, ok := core.Unparen(s.Rhs[0]).(*ast.CallExpr); ok && core.BuiltinName(info, c) == "append" {
+						result = core.ObjOf(info, s.Lhs[0])
+					}
+				}
+			}
+			return true
+		})
+		if bad == "" && result != nil {
+			ast.Inspect(rs.Body, func(x ast.Node) bool {
+				if is, ok := x.(*ast.IfStmt); ok {
+					for _, c := range core.CallsIn(is.Cond, false) {
+						if nm := core.BuiltinName(info, c); (nm == "len" || nm == "cap") && len(c.Args) == 1 && core.ObjOf(info, c.Args[0]) == result {
+							bad = "tests the size of the list it is building (" + core.ExprStr(is.Cond) + ")"
+						}
+					}
+				}
+				return true
+			})
+		}
+		r.Check(bad == "", rule, f.Key+"#visits-every-instruction", pos(r, rs), "every instruction's program is collected",
+			"the loop over the instructions "+bad+": the vote test, which counts the programs, classifies a longer transaction as a simple vote and the vote filter drops or keeps the wrong transactions")
+		return true
+	})
+	if n == 0 {
+		r.Undecided(rule, f.Key+"#instruction-loop", posP(r, f.Pos()), "loop over the message instructions not found")
+	}
 }
